@@ -12,7 +12,7 @@ LEVEL = 'exploration'
 RULE = ('G1 programs (every statement/expression form and literal spelling, four layout regimes), the repository '
         'snippets that calmjs accepts, an enumerated family of nested array literals with holes in every position and the adjacency product of C02 (slot templates x operand classes; every 12th case per quick run), x indentation strings drawn from text(" \\t", max 8) incl. empty. Oracle: '
         'o = pretty_print(parse(src), ind); (a) calmjs re-parses o to the same canonical tree; (b) the independent '
-        'reference parser R1 accepts o and reads the same tree; (c) pretty_print(parse(o), ind) == o byte for byte. '
+        'reference parser R1 accepts o and reads the same tree; (c) pretty_print(parse(o), ind) == o byte for byte; (d) histories: a family of 330 member-access / sign / division programs over every literal spelling is printed in one process in drawn orders (forwards, backwards, again), each output judged by (a)-(c) and required to equal the first output for that program. '
         'Sources calmjs rejects are outside the quantifier, and sources on which calmjs and the reference parser already disagree belong to C03 (both counted, not judged). non-trivial = tree with >= 4 node kinds and '
         'depth >= 3; distinct by (source, indent)')
 ASSUMPTIONS = c03.ASSUMPTIONS
@@ -74,11 +74,74 @@ def classify(src, out, what):
 
 
 def replay(case, acc):
+    if 'history' in case:
+        run_history(acc, (), case['history'])
+        return
     check(acc, (), case['text'], case['indent'], case.get('origin', 'replay'))
 
 
-from harness.shrink import text_shrinker  # noqa: E402
-shrink = text_shrinker(replay, 'text')
+from harness.shrink import text_shrinker, ddmin  # noqa: E402
+_text_shrink = text_shrinker(replay, 'text')
+
+
+def shrink(failure, budget_s):
+    case = failure['case']
+    if not isinstance(case, dict) or 'history' not in case:
+        return _text_shrink(failure, budget_s)
+    import time
+    want = tuple(failure['key'])
+    best = {'f': failure}
+
+    def still_fails(h):
+        acc = Acc()
+        try:
+            run_history(acc, (), list(h))
+        except Exception:
+            return False
+        for f in acc.failures:
+            if tuple(f['key']) == want:
+                best['f'] = f
+                return True
+        return False
+    ddmin(list(case['history']), still_fails, time.time() + budget_s)
+    return best['f']
+
+
+# ---------------------------------------------------------------------------
+# printing is a function of the tree: a family of small programs printed in one process in a drawn order
+
+_OBJ = ['1', '10', '5', '15', '0', 'v1', 'a10', 'x5', '$0', '2.5', '1.5', '0.5', '.5', '0x10', '0x15', '0xf', '1e1',
+        '1e5', '1E0', '017', '1.', '5.', '"s1"', "'5'", '(1)', '[1]', 'f1()', 'a[1]', '/re1/', '/5/', 'this', 'a', 'b5.c1']
+_ACCESS = ['%s .p;', '%s .toFixed(2);', '%s .p = 1;', 'v = %s .p.q;', '%s["p"];', 'a = %s + +b;', 'a = %s - -1;',
+           'a = b / %s;', 'a = %s in o;', 'a = typeof %s;']
+HISTORY_FAMILY = [a % o for a in _ACCESS for o in _OBJ]
+
+
+def run_history(acc, opens, history, one=None):
+    """history: [[source, indent], ...] printed in this order by this process; every output is judged on its
+    own (check) and must equal the first output seen for the same (source, indent)"""
+    first = {}
+    for i, (src, indent) in enumerate(history):
+        scratch = Acc()
+        info = check(scratch, opens, src, indent, 'history')
+        for f in scratch.failures:
+            # the replay unit is the history up to and including the failing print
+            acc.fail(f.get('signature'), {'history': [list(h) for h in history[:i + 1]]},
+                     dict(f['detail'] or {}, source=src, position_in_history=i), opens)
+        for k, v in scratch.skipped.items():
+            acc.skipped[k] += v
+        for k, v in scratch.known.items():
+            acc.known[k] += v
+        if one is not None:
+            one(src, indent, info)
+        if info is None or scratch.failures:
+            continue
+        key = (src, indent)
+        if key in first and first[key] != info['output']:
+            acc.fail(None, {'history': [list(h) for h in history[:i + 1]]},
+                     {'bucket': 'output_depends_on_earlier_prints', 'source': src, 'first': first[key],
+                      'later': info['output'], 'position_in_history': i}, opens)
+        first.setdefault(key, info['output'])
 
 
 
@@ -93,6 +156,9 @@ def plan(tier, seed):
     shards.append({'name': 'corpus', 'kind': 'corpus'})
     for k in range(32):
         shards.append({'name': 'adj-%d' % k, 'kind': 'adj', 'k': k, 'of': 32, 'stride': 12 if tier == 'quick' else 1})
+    for k in range(4 if tier == 'quick' else 16):
+        shards.append({'name': 'history-%d' % k, 'kind': 'history', 'n': 3 if tier == 'quick' else 12,
+                       'hseed': seed * 1000 + 500 + k})
     return shards
 
 
@@ -112,7 +178,19 @@ def run_shard(shard):
         acc.case((src, indent), nt, {'source': src, 'indent': indent, 'output': info['output'] if info else None})
         acc.label('indent_%s' % ('empty' if indent == '' else 'tab' if set(indent) == {'\t'} else
                                  'space' if set(indent) == {' '} else 'mixed'))
-    if shard['kind'] == 'adj':
+    if shard['kind'] == 'history':
+        def hist_one(src, indent, info):
+            acc.case((src, indent), False, None)
+            acc.label('history_print')
+
+        def body(order):
+            if shard['hseed'] % 2:
+                order = list(reversed(order))   # Hypothesis starts from the identity permutation
+            hist = [[s, '  '] for s in order] + [[s, '\t'] for s in reversed(order)] + [[s, '  '] for s in order[::3]]
+            run_history(acc, opens, hist, hist_one)
+            acc.label('history')
+        run_given(st.permutations(HISTORY_FAMILY), body, shard['n'], shard['hseed'], acc)
+    elif shard['kind'] == 'adj':
         # the adjacency product of C02 (slot templates x operand classes) through the pretty printer
         from props import c02
         n = 0
